@@ -88,8 +88,11 @@ class SharedCons:
 class RunMonitor:
     MAX_VIOL_PER_KEY = 3
 
-    def __init__(self, spec, oracles=None, fault=None, gp_fault=None, filter_script=None, construct_only=False, gp_update_fault=None, second_run=False, shared_cons=None):
+    def __init__(self, spec, oracles=None, fault=None, gp_fault=None, filter_script=None, construct_only=False, gp_update_fault=None, second_run=False, shared_cons=None, prelude=False):
         self.spec = spec
+        self.prelude = prelude  # process history: an unmonitored sibling run sharing the callables (see _run_prelude)
+        self.in_prelude = False
+        self.P_pre = None
         self.shared_cons = shared_cons  # C02: ONE constraint callable object handed to several BADS runs in turn
         self.P = gen.Problem(spec)
         self.want = set(oracles) if oracles is not None else set(ALL)
@@ -161,6 +164,8 @@ class RunMonitor:
 
     # ------------------------------------------------------------- boundaries
     def _target(self, x):
+        if self.in_prelude:
+            return self.P_pre.fun(x)
         P = self.P
         k = len(self.calls)
         xx = np.array(x, dtype=float, copy=True).ravel()
@@ -278,6 +283,8 @@ class RunMonitor:
         raise ValueError(kind)
 
     def _cons(self, X):
+        if self.in_prelude:
+            return self.P_pre.cons(X)
         P = self.P
         self.cons_calls += 1
         XX = np.atleast_2d(np.asarray(X, float))
@@ -1361,6 +1368,22 @@ class RunMonitor:
         user_opts = dict(P.options)
         opts_copy = copy.deepcopy(user_opts)
         args = P.bads_args()
+        mon = self
+
+        # plain closures, not bound methods: OptimizeResult deep-copies the
+        # target callable, and a bound method would drag the whole monitor
+        # (and the BADS object) through copy.deepcopy
+        def target(x):
+            return mon._target(x)
+
+        def cons(X):
+            return mon._cons(X)
+
+        if self.shared_cons is not None:
+            self.shared_cons.mon = self
+            cons = self.shared_cons
+        if self.prelude:
+            self._run_prelude(BADS, target, cons)
         patch = self.install()
         rec = {"status": None}
         self.budget_user = None
@@ -1368,20 +1391,6 @@ class RunMonitor:
         try:
             try:
                 self.phase = "pre"
-                # plain closures, not bound methods: OptimizeResult deep-copies the
-                # target callable, and a bound method would drag the whole monitor
-                # (and the BADS object) through copy.deepcopy
-                mon = self
-
-                def target(x):
-                    return mon._target(x)
-
-                def cons(X):
-                    return mon._cons(X)
-
-                if self.shared_cons is not None:
-                    self.shared_cons.mon = self
-                    cons = self.shared_cons
                 b = BADS(target, non_box_cons=(cons if P.cons is not None else None), options=opts_copy, **args)
             except Exception as e:
                 self.exc = e
@@ -1420,6 +1429,50 @@ class RunMonitor:
         finally:
             patch.restore()
         return self._finish(rec)
+
+    def _run_prelude(self, BADS, target, cons):
+        """Process history of the kind a multi-start / re-scaling / pilot-run script produces: BEFORE the monitored
+        instance is built, an unmonitored sibling optimisation of the same dimension runs in this process with the SAME
+        target and constraint callable objects (same x-space function and region), but another plausible box (another
+        internal coordinate system), another seed, a short budget and other tolerances.  Nothing of it may leak into the
+        monitored run.  Failures of the prelude itself are counted, not judged."""
+        P = self.P
+        sp = {k: (dict(v) if isinstance(v, dict) else v) for k, v in self.spec.items()}
+        rs = np.random.RandomState((int(P.options.get("random_seed") or 0) + 4242) % (2**31))
+        fin = np.isfinite(P.lb) & np.isfinite(P.ub)
+        ctr, half = 0.5 * (P.plb + P.pub), 0.5 * (P.pub - P.plb)
+        sc = float(rs.choice([0.5, 2.0, 3.0]))
+        nplb, npub = ctr - sc * half, ctr + sc * half
+        marg = np.where(fin, 2e-3 * (P.ub - P.lb), 0.0)
+        nplb = np.where(fin, np.maximum(nplb, P.lb + marg), nplb)
+        npub = np.where(fin, np.minimum(npub, P.ub - marg), npub)
+        if not np.all(npub - nplb > 1e-6 * np.maximum(1.0, np.abs(npub))):
+            nplb, npub = P.plb, P.pub
+        sp["plb"], sp["pub"] = nplb.tolist(), npub.tolist()
+        sp["cons_frame"] = self.spec.get("cons_frame") or {"lb": self.spec["lb"], "ub": self.spec["ub"], "plb": self.spec["plb"], "pub": self.spec["pub"]}
+        sp["target_frame"] = {"plb": self.spec["plb"], "pub": self.spec["pub"], "lb": self.spec["lb"], "ub": self.spec["ub"]}
+        po = {k: v for k, v in P.options.items() if k in ("uncertainty_handling", "specify_target_noise", "noise_size")}
+        po.update(display="off", random_seed=int(rs.randint(1, 10**6)), max_fun_evals=int(rs.choice([12, 25, 40])))
+        for nm, vals in (("tol_fun", [0.1, 1.0]), ("tol_mesh", [1e-2, 1e-3]), ("max_iter", [3, 6]), ("n_search", [512]), ("fun_eval_start", [4, 9])):
+            if rs.rand() < 0.4:
+                po[nm] = vals[int(rs.randint(len(vals)))]
+        sp["options"] = po
+        self.c("prelude.attempted")
+        try:
+            self.P_pre = gen.Problem(sp)
+            self.in_prelude = True
+            b0 = BADS(target, non_box_cons=(cons if P.cons is not None else None), options=dict(po), **self.P_pre.bads_args())
+            if rs.rand() < 0.75:
+                b0.optimize()
+                self.c("prelude.ran")
+            else:
+                self.c("prelude.constructed_only")
+            self.flags.add("prelude")
+        except BaseException as e:
+            self.c("prelude.failed")
+            self.prelude_exc = repr(e)[:200]
+        finally:
+            self.in_prelude = False
 
     def _second_optimize(self, b, rec):
         """optimize() called again on the same object (a user continuing a run): only the boundary oracles
